@@ -158,6 +158,15 @@ def run(case, ctx):
         return
     if fam == "shapes":
         a, b, k, r = shape_pair(ctx.seed, i)
+        if i % 50 == 7:
+            # a call with non-default options (full connectivity, voxel spacing) comes first: it is not judged (the
+            # statement is about the default), but the default calls that follow are
+            try:
+                pan.METRIC["ASSD"](a, b, None, None, connectivity=min(2, a.ndim))
+                pan.METRIC["ASSD"](a, b, None, None, voxelspacing=tuple([2.0] * a.ndim))
+                ctx.count("C07.non_default_option_calls_before_default_ones", 2)
+            except Exception:  # noqa: BLE001
+                ctx.count("C07.non_default_option_call_raised")
         ctx.count("f:shape." + k)
         ctx.count("f:ndim.%d" % a.ndim)
         check_pair(ctx, a, b, k, r)
